@@ -44,8 +44,15 @@ def scenario(c: Any, P: dict) -> dict:
     else:
         from reactivex.scheduler import EventLoopScheduler
         loop = EventLoopScheduler()
-        inner = Disposable(lambda: (runs.append(me()), c.yp("in-action")))
-        d = ScheduledDisposable(loop, inner)
+        from reactivex import abc as rxabc
+
+        class Resource(rxabc.DisposableBase):
+            """the wrapped resource is NOT idempotent by itself: every dispose() call on it is recorded"""
+
+            def dispose(self) -> None:
+                runs.append(me())
+                c.yp("in-action")
+        d = ScheduledDisposable(loop, Resource())
 
     def worker() -> None:
         for _ in range(ncalls):
@@ -103,6 +110,31 @@ def single_thread_histories(res: UnitResult, seed: int, n: int) -> None:
                 pass
             b.dispose()
             states.append((d.is_disposed, b.is_disposed))
+        # ScheduledDisposable over a scheduler that defers (virtual time): j calls before the scheduler runs, the rest after
+        from reactivex import abc as rxabc
+        from reactivex.disposable import ScheduledDisposable
+        from reactivex.testing import TestScheduler
+        ts = TestScheduler()
+        wrapped_calls = [0]
+
+        class Resource(rxabc.DisposableBase):
+            def dispose(self) -> None:
+                wrapped_calls[0] += 1
+        sd = ScheduledDisposable(ts, Resource())
+        before = r.randint(0, k)
+        for j in range(before):
+            sd.dispose()
+        early = wrapped_calls[0]
+        ts.start()
+        for j in range(k - before):
+            sd.dispose()
+        ts.start()
+        res.count("scheduled_single_thread_histories")
+        if early != 0 or wrapped_calls[0] != (1 if k else 0) or (k > 0 and not sd.is_disposed) or (k == 0 and sd.is_disposed):
+            res.violation("C25:single-thread:scheduled-history", {"dispose_calls_before_scheduler_ran": before, "after": k - before,
+                                                                   "wrapped_dispose_calls_before_scheduler_ran": early,
+                                                                   "wrapped_dispose_calls": wrapped_calls[0], "is_disposed": sd.is_disposed},
+                          {"scenario": "st", "params": {"i": i, "seed": seed}, "decisions": []})
         ok = count[0] == (1 if k else 0) and all(s == (True, True) for s in states) and (k > 0 or (not d.is_disposed and not b.is_disposed))
         res.case(key=["st", k, reent, raising], nontrivial=k > 1, sample={"history": ["dispose"] * k, "reentrant": reent, "action_raises": raising, "action_runs": count[0]})
         res.count("single_thread_histories")
